@@ -594,9 +594,14 @@ func runC14p(c *vu.Case) {
 	if err != nil {
 		panic(err)
 	}
-	prov, err := provider.New(provider.WithPeerID(hs.self), provider.WithRouter(router), provider.WithMessageSender(hs),
+	popts := []provider.Option{provider.WithPeerID(hs.self), provider.WithRouter(router), provider.WithMessageSender(hs),
 		provider.WithSelfAddrs(func() []ma.Multiaddr { return []ma.Multiaddr{addr} }), provider.WithReplicationFactor(3),
-		provider.WithReprovideInterval(time.Hour), provider.WithKeystore(ks), provider.WithDatastore(ds))
+		provider.WithReprovideInterval(time.Hour), provider.WithKeystore(ks), provider.WithDatastore(ds)}
+	if n := atoiSP(a["conns"], 0); n > 0 {
+		// few connections per worker: a region's records go to more peers than can be in flight or queued at once
+		popts = append(popts, provider.WithMaxProvideConnsPerWorker(n))
+	}
+	prov, err := provider.New(popts...)
 	if err != nil {
 		panic(err)
 	}
@@ -614,6 +619,15 @@ func runC14p(c *vu.Case) {
 	case "sending":
 		hs.hang = true
 		_ = api.StartProviding(true, spKey(3), spKey(6))
+		time.Sleep(time.Second)
+	case "sendingmany":
+		// many keys at once: every region's records go to a good part of the swarm
+		hs.hang = true
+		var ks []mh.Multihash
+		for i := 8; i < 40; i++ {
+			ks = append(ks, spKey(i))
+		}
+		_ = api.StartProviding(true, ks...)
 		time.Sleep(time.Second)
 	case "offline":
 		router.mu.Lock()
@@ -656,7 +670,7 @@ func runC14p(c *vu.Case) {
 func TestVerifC14p(t *testing.T) {
 	vu.Run(t, vu.Config{Prop: "C14p", QuickN: 48, ThoroughN: 1000,
 		Gen: func(r *vu.RNG, c *vu.Case) bool {
-			c.In = append(c.In, fmt.Sprintf("life buffered=%d when=%s twice=%d", r.Intn(2), []string{"idle", "midcycle", "sending", "offline"}[r.Intn(4)], r.Intn(2)))
+			c.In = append(c.In, fmt.Sprintf("life buffered=%d when=%s twice=%d conns=%d", r.Intn(2), []string{"idle", "midcycle", "sending", "offline", "sendingmany", "sendingmany"}[r.Intn(6)], r.Intn(2), []int{0, 1, 2}[r.Intn(3)]))
 			c.Tag("nontrivial")
 			return true
 		}, Exec: func(c *vu.Case) {
